@@ -324,6 +324,37 @@ def adoption_rule(rep, f):
     rep.floor("C01.e", n, 10)
 
 
+def recovery_progress_rule(rep):
+    from ..engines import guard
+    rep.rule("C01.h", "error recovery in the DTD subset loops makes progress: the main loops of DTDScanner::scanExtSubsetDecl and "
+             "scanInternalSubset look at the next character with peekNextChar and, when nothing recognises it, re-synchronise with "
+             "skipUntilIn / skipUntilInOrWS, which stop *at* `%`, `]` or `<` without consuming them; on every path from the peek to "
+             "that re-synchronisation a consuming reader call (getNextChar, skipped*, getName ...) must have taken the offending "
+             "character (CFG must-dataflow, killed by the next peek) — otherwise a stray `]` with continue-after-fatal-error makes "
+             "the parser report the same error forever")
+    g = core.run_xa([os.path.join(core.REPO, "src/xercesc/validators/DTD/DTDScanner.cpp")],
+                    cfg=r"^DTDScanner::(scanExtSubsetDecl|scanInternalSubset)$", flat=False)
+    CONS = ("getNextChar", "getNextCharIfNot", "skippedChar", "skippedString", "skippedSpace", "skipPastChar", "skipPastSpaces",
+            "skipQuotedString", "getName", "getNCName", "getNameToken")
+    n = 0
+    for q in ("DTDScanner::scanExtSubsetDecl", "DTDScanner::scanInternalSubset"):
+        for raw in g.cfgs.get(q, []):
+            cfg = guard.Cfg(raw)
+
+            def named(el, names):
+                return any(c[0] == "c" and c[1].split("::")[-1] in names for c in guard.el_top_calls(el))
+            st = guard.must_state(cfg, gen_el=lambda el: named(el, CONS), kill_el=lambda el: named(el, ("peekNextChar",)))
+            for b, i, el in cfg.elements():
+                if named(el, ("skipUntilIn", "skipUntilInOrWS")):
+                    n += 1
+                    ok = st(b, i)
+                    rep.ob("C01.h", "%s@resync:%s" % (q, n), ok, "the offending character is consumed before re-synchronising" if ok else
+                           "%s (line %s) re-synchronises without having consumed the character it could not handle on some path: "
+                           "skipUntilIn* stops at that same character again and the loop never advances" % (q, el.get("l")),
+                           "src/xercesc/validators/DTD/DTDScanner.cpp:%s" % el.get("l", 0))
+    rep.floor("C01.h", n, 2)
+
+
 def run(rep):
     f = core.library_facts()
     rep.units.update(os.path.relpath(t, core.REPO) for t in f.tus)
@@ -336,6 +367,7 @@ def run(rep):
     C20.cursor_rule(rep, "C01.f")
     from . import C15
     C15.pool_free_rule(rep, f, "C01.g")
+    recovery_progress_rule(rep)
     diag.run(rep, f, "C01")
     rep.undecided += ["index arithmetic on input-derived values in the reader and the transcoders", "sufficiency of buffer growth steps",
                       "signed overflow and other undefined behaviour", "termination and the time bound under an entity-expansion limit",
